@@ -191,27 +191,27 @@ func sameStrMap(a, b map[string]string) bool {
 // Returns false (leaving a untouched) when the states cannot be merged.
 func (r *Runner) mergeInto(a, b *State) bool {
 	if len(a.frames) != len(b.frames) || a.epoch != b.epoch || !sameStrMap(a.held, b.held) {
-		return false
+		return mergeFail(1)
 	}
 	for i := range a.frames {
 		fa, fb := a.frames[i], b.frames[i]
 		if fa.id != fb.id || fa.blk != fb.blk || fa.ip != fb.ip || len(fa.defers) != len(fb.defers) || len(fa.loops) != len(fb.loops) {
-			return false
+			return mergeFail(2)
 		}
 		for k := range fa.loops {
 			if fb.loops[k] != fa.loops[k] {
-				return false
+				return mergeFail(3)
 			}
 		}
 		for k := range fa.defers {
 			if fa.defers[k].instr != fb.defers[k].instr {
-				return false
+				return mergeFail(4)
 			}
 		}
 	}
 	for k, v := range a.lockSnap {
 		if b.lockSnap[k] != v {
-			return false
+			return mergeFail(5)
 		}
 	}
 	// common prefix of the path conditions
@@ -224,7 +224,7 @@ func (r *Runner) mergeInto(a, b *State) bool {
 	if ga.S == "true" || gb.S == "true" {
 		// one state subsumes the other only if the suffix is empty; guard must distinguish them
 		if ga.S == "true" && gb.S == "true" {
-			return false
+			return mergeFail(6)
 		}
 	}
 	g := Fresh("mg", SBool)
@@ -241,7 +241,7 @@ func (r *Runner) mergeInto(a, b *State) bool {
 		}
 		mv, ok := mergeVal(g, va, vb)
 		if !ok {
-			return false
+			return mergeFail(7)
 		}
 		cells = append(cells, cellUpd{k, mv})
 	}
@@ -259,7 +259,7 @@ func (r *Runner) mergeInto(a, b *State) bool {
 			}
 			mv, ok := mergeVal(g, va, vb)
 			if !ok {
-				return false
+				return mergeFail(8)
 			}
 			regs = append(regs, regUpd{i, k, mv})
 		}
@@ -267,12 +267,12 @@ func (r *Runner) mergeInto(a, b *State) bool {
 		for k := range a.frames[i].defers {
 			da, db := a.frames[i].defers[k], b.frames[i].defers[k]
 			if len(da.args) != len(db.args) {
-				return false
+				return mergeFail(9)
 			}
 			for j := range da.args {
 				for c := range da.args[j].C {
 					if c >= len(db.args[j].C) || da.args[j].C[c].S != db.args[j].C[c].S {
-						return false
+						return mergeFail(10)
 					}
 				}
 			}
@@ -300,6 +300,8 @@ func (r *Runner) mergeInto(a, b *State) bool {
 		switch {
 		case strings.HasPrefix(k, "calls:"):
 			return Sym("calls_"+sanitize(strings.TrimPrefix(k, "calls:"))+"@entry", SInt), true
+		case strings.HasPrefix(k, "ifver:"):
+			return Sym("ifver_"+sanitize(strings.TrimPrefix(k, "ifver:"))+"@entry", SArr), true
 		case strings.HasPrefix(k, "spec:"):
 			return Sym(fmt.Sprintf("ghost_%s@%d", sanitize(strings.TrimPrefix(k, "spec:")), s.epoch), SInt), true
 		}
@@ -308,17 +310,23 @@ func (r *Runner) mergeInto(a, b *State) bool {
 	for k, ta := range a.ghost {
 		tb, ok := b.ghost[k]
 		if !ok {
+			if strings.HasPrefix(k, "iter:") {
+				continue // iterator state of a loop only one side went through: dead after the join
+			}
 			if tb, ok = initialGhost(b, k); !ok {
-				return false
+				return mergeFail(11)
 			}
 		}
 		ghost[k] = Ite(g, ta, tb)
 	}
 	for k, tb := range b.ghost {
 		if _, ok := a.ghost[k]; !ok {
+			if strings.HasPrefix(k, "iter:") {
+				continue
+			}
 			ta, ok := initialGhost(a, k)
 			if !ok {
-				return false
+				return mergeFail(12)
 			}
 			ghost[k] = Ite(g, ta, tb)
 		}
@@ -517,4 +525,65 @@ func itoa(n int) string {
 		s = "-" + s
 	}
 	return s
+}
+
+var mergeFailCount = map[int]int{}
+
+func mergeFail(n int) bool {
+	mergeFailCount[n]++
+	return false
+}
+
+// runInlined executes an inlined call to completion on every path and merges the states that
+// return to the caller (a callee with several return statements would otherwise multiply the
+// caller's paths). st must have the callee frame on top; depth is the caller's frame index.
+func (r *Runner) runInlined(st *State, depth int) {
+	saved := r.work
+	r.work = nil
+	queue := []*State{st}
+	var arrived []*State
+	for len(queue) > 0 {
+		s := queue[len(queue)-1]
+		queue = queue[:len(queue)-1]
+		for !s.dead && len(s.frames)-1 > depth {
+			r.step(s)
+			s.steps++
+			if s.steps > 200000 {
+				panic(unsupported("step limit"))
+			}
+		}
+		if !s.dead {
+			arrived = append(arrived, s)
+		}
+		queue = append(queue, r.work...)
+		r.work = nil
+	}
+	r.work = saved
+	if len(arrived) == 0 {
+		st.dead = true
+		return
+	}
+	// the caller keeps stepping st: make it the first survivor
+	first := arrived[0]
+	if first != st {
+		found := false
+		for i, s := range arrived {
+			if s == st {
+				arrived[0], arrived[i] = arrived[i], arrived[0]
+				found = true
+				break
+			}
+		}
+		if !found {
+			*st = *first
+			arrived[0] = st
+		}
+	}
+	for _, s := range arrived[1:] {
+		if r.noMerge || !r.mergeInto(st, s) {
+			r.work = append(r.work, s)
+		} else {
+			r.paths--
+		}
+	}
 }
